@@ -1,10 +1,11 @@
 """scrapli.transport.plugins.telnet.transport"""
 
+import socket
 from dataclasses import dataclass
 from typing import Optional
 
 from scrapli.decorators import timeout_wrapper
-from scrapli.exceptions import ScrapliConnectionError, ScrapliConnectionNotOpened
+from scrapli.exceptions import ScrapliConnectionError, ScrapliConnectionNotOpened, ScrapliTimeout
 from scrapli.transport.base import BasePluginTransportArgs, BaseTransportArgs, Transport
 from scrapli.transport.base.base_socket import Socket
 from scrapli.transport.base.telnet_common import DO, DONT, IAC, NULL, SUPPRESS_GO_AHEAD, WILL, WONT
@@ -243,8 +244,12 @@ class TelnetTransport(Transport):
                     "encountered EOF reading from transport; typically means the device closed the "
                     "connection"
                 ) from exc
+            except socket.timeout as exc:
+                # the device was silent for longer than the socket timeout (still in effect until
+                # the option negotiation is over); the connection is not lost, the read timed out
+                raise ScrapliTimeout("timed out reading from transport") from exc
             except OSError as exc:
-                # connection reset, socket timeout, etc.
+                # connection reset, etc.
                 raise ScrapliConnectionError(
                     f"encountered error reading from transport, connection lost: {exc!r}"
                 ) from exc
